@@ -204,7 +204,8 @@ class C12(Prop):
             'sizing prefix x every delimiter as the only command of a region; '
             '(iii) every zero-argument operator followed by a bracket; (iv) '
             'two directly adjacent regions for all ordered pairs of kinds; (v) a '
-            'named environment (array, cases, split, ...) nested in every kind of region. '
+            'named environment (array, cases, split, ...) nested in every kind of region; '
+            '(vi) a math region inside the argument of a command inside every kind of region. '
             'non-trivial = the body contains a bracket, a command or an '
             'escaped dollar; distinct = by content')
     assumptions = (
@@ -269,6 +270,16 @@ class C12(Prop):
                         if want(k) and (tier != 'quick' or (ci + bi + len(inner)) % 2 == 0):
                             yield k, {'w': 'nested', 'kind': outer, 'inner': inner, 'ctx': cx,
                                       'iargs': ia, 'ibody': ib}
+        # (vi) a `$..$` / `$$..$$` / `\\(..\\)` region inside the argument of a
+        # command that itself stands in a math region (`\\[ x \\text{for all $y$} \\]`)
+        for outer in KINDS:
+            for icmd in ('\\text{', '\\mbox{', '\\textrm[', '\\intertext{'):
+                for ikind in ('$', '$$', '\\(', '\\['):
+                    for cx in ('top', 'env', 'item'):
+                        k += 1
+                        if want(k) and not (icmd.endswith('[') and ikind == '\\['):
+                            yield k, {'w': 'math-in-arg-in-math', 'kind': outer, 'icmd': icmd,
+                                      'ikind': ikind, 'ctx': cx}
         n = 14000 if tier == 'quick' else 350000
         ctxs = list(CONTEXTS)
         for j in range(n):
@@ -287,14 +298,14 @@ class C12(Prop):
                       'body': fix_body(kind, body), 'expect': exp}
 
     def nontrivial(self, p):
-        if p['w'] in ('adjacent', 'nested'):
+        if p['w'] in ('adjacent', 'nested', 'math-in-arg-in-math'):
             return True
         return any(c in p['body'] for c in '()[]\\')
 
     def sample(self, p):
         if p['w'] == 'adjacent':
             return {'src': region(p['kinds'][0], p['bodies'][0]) + region(p['kinds'][1], p['bodies'][1])}
-        if p['w'] == 'nested':
+        if p['w'] in ('nested', 'math-in-arg-in-math'):
             return p
         return {'src': short(CONTEXTS[p['ctx']][0] + region(p['kind'], p['body']) + CONTEXTS[p['ctx']][1], 200)}
 
@@ -317,6 +328,25 @@ class C12(Prop):
             return []
         if p['w'] == 'nested':
             return self.check_nested(p, ctx)
+        if p['w'] == 'math-in-arg-in-math':
+            c0, c1 = CONTEXTS[p['ctx']]
+            closer = '}' if p['icmd'].endswith('{') else ']'
+            inner = region(p['ikind'], 'y+1')
+            body = 'x ' + p['icmd'] + ' for all ' + inner + ' ok' + closer + ' z'
+            src = c0 + region(p['kind'], body) + c1
+            soup = common.parse(src)
+            ctx.count('regions:math-in-arg-in-math')
+            ctx.seen('math_in_arg', (p['kind'], p['ikind']))
+            if str(soup) != src:
+                return [fail('math-roundtrip', '%s -> %s' % (short(repr(src)), short(repr(str(soup)))))]
+            ms = math_nodes(soup.expr)
+            if len(ms) != 2:
+                return [fail('math-node', '%s yields %d math regions, expected 2 (one inside the argument)'
+                             % (short(repr(src), 140), len(ms)))]
+            why = check_region(ms[0], p['kind'], body) or check_region(ms[1], p['ikind'], 'y+1')
+            if why:
+                return [fail('math-node', '%s: %s' % (short(repr(src), 140), why))]
+            return []
         c0, c1 = CONTEXTS[p['ctx']]
         kind, body = p['kind'], p['body']
         src = c0 + region(kind, body) + c1
